@@ -89,6 +89,13 @@ class CharacterConstant(Token):
     Represents a character constant.
     """
 
+    def sanitized_str(self):
+        """
+        Return this character constant quoted for stringification.
+        """
+        escaped = self.token.replace("\\", "\\\\").replace('"', '\\"')
+        return f"'{escaped}'"
+
 
 @dataclass
 class NumericalConstant(Token):
